@@ -183,6 +183,7 @@ struct DeOpts {
 	ignore: Vec<Vec<usize>>,
 	duration_mode: &'static str,
 	enum_mode: &'static str,
+	decimal_mode: &'static str,
 	hints: &'static str,
 	shape: Option<J>,
 }
@@ -209,6 +210,13 @@ fn de_opts(cmd: &J) -> DeOpts {
 			Some("map") => "map",
 			Some("seq") => "seq",
 			_ => "bytes",
+		},
+		decimal_mode: match cmd.get("decimal_mode").and_then(|m| m.as_str()) {
+			Some("u64") => "u64",
+			Some("i64") => "i64",
+			Some("u128") => "u128",
+			Some("i128") => "i128",
+			_ => "str",
 		},
 		enum_mode: match cmd.get("enum_mode").and_then(|m| m.as_str()) {
 			Some("u64") => "u64",
@@ -240,6 +248,7 @@ fn de_bytes(schema: &'static Built, bytes: &[u8], cmd: &J) -> Result<J, String> 
 	ctx.ignore = opts.ignore.clone();
 	ctx.duration_mode = opts.duration_mode;
 	ctx.enum_mode = opts.enum_mode;
+	ctx.decimal_mode = opts.decimal_mode;
 	ctx.hints = opts.hints;
 	ctx.shape = opts.shape.clone();
 	match kind {
